@@ -270,6 +270,12 @@ func timerSlowCb(kind string, variant int) func(t *testing.T, rec *Rec, g *Gates
 					rec.Log("stop.call", "c", "self")
 					w.tm.Stop()
 					rec.Log("stop.ret", "c", "self")
+				case 3: // refreshed from elsewhere while the callback is still running
+					g.at("T.cb", "")
+				case 4: // the callback refreshes its own timer
+					rec.Log("refresh.call", "c", "self")
+					w.tm.Refresh()
+					rec.Log("refresh.ret", "c", "self")
 				}
 			}
 		}
@@ -287,6 +293,12 @@ func timerSlowCb(kind string, variant int) func(t *testing.T, rec *Rec, g *Gates
 		if variant == 1 {
 			w.stop("c1", 0) // cancelled while a callback is still running: must return at once
 		}
+		if variant == 3 {
+			w.refresh("c1") // due one full period from now, whatever the running callback does when it returns
+			g.Park("T.cb", false)
+			g.ReleaseAll()
+			synctest.Wait()
+		}
 		for i := 0; i < 2; i++ {
 			time.Sleep(w.unit)
 			w.census()
@@ -300,7 +312,7 @@ func timerSlowCb(kind string, variant int) func(t *testing.T, rec *Rec, g *Gates
 func timerScenarios(behs [][]map[string]any, seed int64, nRandom int) []Scenario {
 	var out []Scenario
 	for _, kind := range []string{"timeout", "interval"} {
-		for v := 0; v < 3; v++ {
+		for v := 0; v < 5; v++ {
 			out = append(out, Scenario{Name: fmt.Sprintf("slowcb_%s_%d", kind, v), Run: timerSlowCb(kind, v)})
 		}
 	}
